@@ -51,12 +51,37 @@ fn setup(dir: &ScratchDir, commits: u64, compact_first: bool) -> Result<Db, Stri
 }
 
 fn viol(kind: &str, point: &str, summary: String, diff: &[(String, String, String)], extra: serde_json::Value) -> Violation {
+    // the signature names every category of difference; the detail lists the first few facts
+    let shown = &diff[..diff.len().min(10)];
     Violation {
         signature: format!("C03|{kind}:{}|{point}", diff_signature(diff)),
         summary,
-        detail: json!({"point": point, "diff": facts_diff_json(diff, "expected", "observed"), "extra": extra}),
+        detail: json!({"point": point, "differing_facts": diff.len(), "diff": facts_diff_json(shown, "expected", "observed"), "extra": extra}),
         replay: json!({"engine":"concmon","property":"C03","kind":kind,"point":point}),
     }
+}
+
+/// Runs the partner action while the other thread is parked. If the partner does not finish
+/// within a short grace period it is waiting for the parked thread (the point lies inside a
+/// section the engine protects): the parked thread is released and the partner's result is
+/// judged all the same. Returns (result, partner_had_to_wait).
+fn run_partner<T: Send>(ctl: &Arc<Ctl>, f: impl FnOnce() -> T + Send) -> (T, bool) {
+    std::thread::scope(|sc| {
+        let (tx, rx) = std::sync::mpsc::channel();
+        sc.spawn(move || {
+            let _ = tx.send(f());
+        });
+        match rx.recv_timeout(Duration::from_millis(120)) {
+            Ok(v) => {
+                ctl.release();
+                (v, false)
+            }
+            Err(_) => {
+                ctl.release();
+                (rx.recv().expect("partner thread died"), true)
+            }
+        }
+    })
 }
 
 /// Writer parked at `point` inside `op`; the reader takes a fresh snapshot and re-reads an old one.
@@ -95,14 +120,19 @@ fn case_writer_parked(ctl: &Arc<Ctl>, op: WriterOp, point: &'static str, commits
         return;
     }
     // the writer is parked between two of its publication steps
-    let fresh = db.snapshot();
-    let fresh_dump = uni_dump(&fresh);
     let old_dump1 = uni_dump(&old_snap);
-    ctl.release();
+    let ((fresh, fresh_dump), waited) = run_partner(ctl, || {
+        let fresh = db.snapshot();
+        let d = uni_dump(&fresh);
+        (fresh, d)
+    });
     let wres = handle.join();
     out.evaluations += 1;
     out.count(&format!("parked.{point}"), 1);
-    out.cell(format!("writer-parked:{point}:compacted={compacted}"));
+    if waited {
+        out.count("partner_waited_for_parked_thread", 1);
+    }
+    out.cell(format!("writer-parked:{point}:compacted={compacted}:reader-{}", if waited { "waited" } else { "ran" }));
     if !matches!(wres, Ok(Ok(()))) {
         out.inconclusive("writer-failed");
         return;
@@ -112,8 +142,8 @@ fn case_writer_parked(ctl: &Arc<Ctl>, op: WriterOp, point: &'static str, commits
     let fresh_dump2 = uni_dump(&fresh);
     // (a) the fresh snapshot is the state before or after the operation, never a mixture
     if fresh_dump != before && fresh_dump != after {
-        let d1 = diff_facts(&before, &fresh_dump, 8);
-        let d2 = diff_facts(&after, &fresh_dump, 8);
+        let d1 = diff_facts(&before, &fresh_dump, usize::MAX);
+        let d2 = diff_facts(&after, &fresh_dump, usize::MAX);
         let d = if d1.len() <= d2.len() { d1 } else { d2 };
         out.violations.push(viol(
             "snapshot-shows-partial-operation",
@@ -125,7 +155,7 @@ fn case_writer_parked(ctl: &Arc<Ctl>, op: WriterOp, point: &'static str, commits
     }
     // (b) stability of both snapshots
     for (name, a, b) in [("old-snapshot-during", &old_dump0, &old_dump1), ("old-snapshot-after", &old_dump0, &old_dump2), ("fresh-snapshot-after", &fresh_dump, &fresh_dump2)] {
-        let d = diff_facts(a, b, 8);
+        let d = diff_facts(a, b, usize::MAX);
         if !d.is_empty() {
             out.violations.push(viol(
                 &format!("snapshot-changed-{name}"),
@@ -166,26 +196,28 @@ fn case_reader_parked(ctl: &Arc<Ctl>, op: WriterOp, point: &'static str, commits
         out.inconclusive(&format!("point-not-reached:{point}"));
         return;
     }
-    let wres = match op {
+    let (wres, waited) = run_partner(ctl, || match op {
         WriterOp::Commit => marker_tx(&db, commits),
         WriterOp::Compact => db.compact().map_err(|e| e.to_string()),
-    };
-    ctl.release();
+    });
     let Ok((snap, d1)) = reader.join() else {
         out.inconclusive("reader-panicked");
         return;
     };
     out.evaluations += 1;
     out.count(&format!("parked.{point}"), 1);
-    out.cell(format!("reader-parked:{point}:{op:?}:compacted={compacted}"));
+    if waited {
+        out.count("partner_waited_for_parked_thread", 1);
+    }
+    out.cell(format!("reader-parked:{point}:{op:?}:compacted={compacted}:writer-{}", if waited { "waited" } else { "ran" }));
     if wres.is_err() {
         out.inconclusive("writer-failed");
         return;
     }
     let after = db_dump(&db);
     if d1 != before && d1 != after {
-        let da = diff_facts(&before, &d1, 8);
-        let db_ = diff_facts(&after, &d1, 8);
+        let da = diff_facts(&before, &d1, usize::MAX);
+        let db_ = diff_facts(&after, &d1, usize::MAX);
         let d = if da.len() <= db_.len() { da } else { db_ };
         out.violations.push(viol(
             "snapshot-shows-partial-operation",
@@ -196,9 +228,47 @@ fn case_reader_parked(ctl: &Arc<Ctl>, op: WriterOp, point: &'static str, commits
         ));
     }
     let d2 = uni_dump(&snap);
-    let d = diff_facts(&d1, &d2, 8);
+    let d = diff_facts(&d1, &d2, usize::MAX);
     if !d.is_empty() {
         out.violations.push(viol("snapshot-changed-on-reread", point, "re-reading the same snapshot gives a different content".into(), &d, json!({})));
+    }
+}
+
+fn is_property_fact(key: &str) -> bool {
+    let c = crate::common::fact_category(key);
+    c == "node-prop" || c == "edge-prop" || c.starts_with("!incoherent")
+}
+
+/// An old snapshot must not see what is committed and compacted after it was taken: S = snapshot;
+/// commit (new key on an old node, new node); compact; re-read S.
+fn case_old_snapshot_across_compaction(commits: u64, compacted: bool, out: &mut CaseOut) {
+    let dir = ScratchDir::new("c03o");
+    let db = match setup(&dir, commits, compacted) {
+        Ok(d) => d,
+        Err(e) => {
+            out.inconclusive(&format!("setup:{e}"));
+            return;
+        }
+    };
+    let snap = db.snapshot();
+    let d0 = uni_dump(&snap);
+    if marker_tx(&db, commits).is_err() || db.compact().is_err() {
+        out.inconclusive("writer-failed");
+        return;
+    }
+    let d1 = uni_dump(&snap);
+    out.evaluations += 1;
+    out.count("old_snapshot_across_commit_and_compaction", 1);
+    out.cell(format!("old-snapshot-across-commit+compact:compacted={compacted}"));
+    let df = diff_facts(&d0, &d1, usize::MAX);
+    if !df.is_empty() {
+        out.violations.push(viol(
+            "snapshot-changed-old-snapshot-after",
+            "sequential:commit-then-compact",
+            "a snapshot shows data of a transaction committed after it was taken, once a compaction has run".into(),
+            &df,
+            json!({"steps": ["S = snapshot()", "commit (sets a new key on node 0, creates a node)", "compact()", "dump(S) again"]}),
+        ));
     }
 }
 
@@ -219,10 +289,12 @@ fn stress(ctl: &Arc<Ctl>, seed: u64, secs: u64, readers: usize, out: &mut CaseOu
     let started = Arc::new(AtomicU64::new(0));
     let acked = Arc::new(AtomicU64::new(0));
     let stop = Arc::new(AtomicBool::new(false));
+    let cstart = Arc::new(AtomicU64::new(0));
+    let cfin = Arc::new(AtomicU64::new(0));
     ctl.noise.store(7, Ordering::Relaxed);
     ctl.lock_monitoring.store(true, Ordering::Relaxed);
     let w = {
-        let (db, states, started, acked, stop) = (db.clone(), states.clone(), started.clone(), acked.clone(), stop.clone());
+        let (db, states, started, acked, stop, cstart, cfin) = (db.clone(), states.clone(), started.clone(), acked.clone(), stop.clone(), cstart.clone(), cfin.clone());
         std::thread::spawn(move || {
             let mut k = 0u64;
             let mut compactions = 0u64;
@@ -236,7 +308,9 @@ fn stress(ctl: &Arc<Ctl>, seed: u64, secs: u64, readers: usize, out: &mut CaseOu
                 acked.store(k + 1, Ordering::SeqCst);
                 k += 1;
                 if k % 9 == 0 {
+                    cstart.fetch_add(1, Ordering::SeqCst);
                     let _ = db.compact();
+                    cfin.fetch_add(1, Ordering::SeqCst);
                     compactions += 1;
                 }
                 if k % 25 == 0 {
@@ -249,13 +323,16 @@ fn stress(ctl: &Arc<Ctl>, seed: u64, secs: u64, readers: usize, out: &mut CaseOu
     let results: Arc<Mutex<CaseOut>> = Arc::new(Mutex::new(CaseOut::default()));
     let mut rs = Vec::new();
     for r in 0..readers {
-        let (db, states, started, acked, stop, results) = (db.clone(), states.clone(), started.clone(), acked.clone(), stop.clone(), results.clone());
+        let (db, states, started, acked, stop, results, cstart, cfin) = (db.clone(), states.clone(), started.clone(), acked.clone(), stop.clone(), results.clone(), cstart.clone(), cfin.clone());
         rs.push(std::thread::spawn(move || {
             let mut rng = Rng::derive(seed, r as u64);
             let mut o = CaseOut::default();
-            let mut held: Vec<(ndb_core::DbSnapshot, Facts, u64)> = Vec::new();
+            let mut held: Vec<(ndb_core::DbSnapshot, Facts, u64, u64)> = Vec::new();
             while !stop.load(Ordering::Relaxed) {
                 let lo = acked.load(Ordering::SeqCst);
+                // compactions finished before / started before the snapshot was requested
+                let cfin0 = cfin.load(Ordering::SeqCst);
+                let cstart0 = cstart.load(Ordering::SeqCst);
                 let snap = db.snapshot();
                 let hi = started.load(Ordering::SeqCst);
                 let d = uni_dump(&snap);
@@ -285,29 +362,37 @@ fn stress(ctl: &Arc<Ctl>, seed: u64, secs: u64, readers: usize, out: &mut CaseOu
                     None => o.inconclusive("state-not-recorded-in-time"),
                     Some(false) => {
                         let st = states.lock().unwrap();
-                        let near = (lo as usize..=(hi as usize).min(st.len() - 1)).map(|j| diff_facts(&st[j], &d, 8)).min_by_key(|x| x.len()).unwrap_or_default();
+                        // nearest candidate: fewest structural differences first, then fewest overall
+                        let near = (lo as usize..=(hi as usize).min(st.len() - 1))
+                            .map(|j| diff_facts(&st[j], &d, usize::MAX))
+                            .min_by_key(|x| (x.iter().filter(|(k, _, _)| !is_property_fact(k)).count(), x.len()))
+                            .unwrap_or_default();
+                        let overlap = cfin0 != cstart.load(Ordering::SeqCst) || cstart0 != cstart.load(Ordering::SeqCst);
                         o.violations.push(viol(
                             "stress-snapshot-is-no-committed-prefix",
-                            "free-running",
+                            if overlap { "free-running:compaction-overlapped" } else { "free-running:no-compaction-overlapped" },
                             format!("a snapshot taken between {lo} acknowledged and {hi} started commits equals no committed state in that range"),
                             &near,
                             json!({"lo": lo, "hi": hi}),
                         ));
                     }
                 }
-                held.push((snap, d, lo));
+                held.push((snap, d, lo, cfin0));
                 // re-read held snapshots, drop old ones at random
                 if held.len() > 3 || rng.chance(1, 3) {
                     let i = rng.below(held.len());
-                    let (s, d0, took) = &held[i];
+                    let (s, d0, took, cfin_at_take) = &held[i];
                     let d1 = uni_dump(s);
                     o.count("rereads", 1);
                     if acked.load(Ordering::SeqCst) >= took + 18 {
                         o.count("rereads_spanning_two_compactions", 1);
                     }
-                    let df = diff_facts(d0, &d1, 8);
+                    let df = diff_facts(d0, &d1, usize::MAX);
                     if !df.is_empty() {
-                        o.violations.push(viol("stress-snapshot-changed", "free-running", "a long-lived snapshot changed its content".into(), &df, json!({"taken_at_commit": took, "now": acked.load(Ordering::SeqCst)})));
+                        // did any compaction run (or start) after the snapshot was requested?
+                        let overlap = cstart.load(Ordering::SeqCst) > *cfin_at_take;
+                        let point = if overlap { "free-running:compaction-overlapped" } else { "free-running:no-compaction-overlapped" };
+                        o.violations.push(viol("stress-snapshot-changed", point, "a long-lived snapshot changed its content".into(), &df, json!({"taken_at_commit": took, "now": acked.load(Ordering::SeqCst)})));
                     }
                     if held.len() > 3 {
                         held.remove(i);
@@ -368,6 +453,11 @@ pub fn main(args: &Args) -> Report {
                     case_reader_parked(&ctl, op, p, commits, compacted, &mut out);
                 }
             }
+        }
+    }
+    for i in 0..reps {
+        for compacted in [false, true] {
+            case_old_snapshot_across_compaction(3 + i as u64 % 4, compacted, &mut out);
         }
     }
     let secs = args.budget_s(15, 600);
